@@ -190,11 +190,17 @@ where
             if round == 0 {
                 let qr2: Vec<Fd<T>> = rand_vec(rng, typ.query_rand_len());
                 let mut variants: Vec<(Vec<Fd<T>>, Vec<Fd<T>>, Vec<Fd<T>>, Vec<Fd<T>>)> = vec![];
-                for d in [-1i32, 1] {
+                // every argument at lengths 0, 1, len-1, len+1 and 2*len
+                for d in 0..5usize {
                     let adj = |v: &Vec<Fd<T>>| {
-                        let mut v = v.clone();
-                        if d < 0 { v.pop(); } else { v.push(Fd::<T>::one()); }
-                        v
+                        let n = match d {
+                            0 => 0,
+                            1 => 1,
+                            2 => v.len().saturating_sub(1),
+                            3 => v.len() + 1,
+                            _ => 2 * v.len(),
+                        };
+                        (0..n).map(|i| if v.is_empty() { Fd::<T>::one() } else { v[i % v.len()] }).collect::<Vec<_>>()
                     };
                     variants.push((adj(&input), proof.clone(), qr2.clone(), jr.clone()));
                     variants.push((input.clone(), adj(&proof), qr2.clone(), jr.clone()));
